@@ -13,7 +13,7 @@ EXTENDS Mfd3, Surface2D, Action, Json, IOUtils
 Rec == ndJsonDeserialize(IOEnv.TRACE)
 VARIABLE l
 Init == l = 1
-CoveringOK(C, S) == CompleteSym(C) /\ Connected(C) /\ C.n % S.n = 0 /\ IsCovering(C, S, StdProj(C, S))
+CoveringOK(C, S) == CompleteSym(C) /\ Connected(C) /\ C.n % S.n = 0 /\ IsCoverOf(C, S)
 ToroidalOK(e) ==
    LET S == e.sym  C == e.cov  Q == Orbifold(C) IN
    /\ CompleteSym(S) /\ S.dim = 2 /\ Orbifold(S).curv[1] = 0            \* domain: euclidean
